@@ -553,3 +553,10 @@ def h_circ_pump_out_of_service(inp, body):
     except Exception as e:  # noqa
         bad = type(e).__name__ != "PipeflowNotConverged"
         return {"reproduced": bool(bad), "observed": {"raised": "%s: %s" % (type(e).__name__, str(e)[:200])}}
+
+
+def h_bounded(inp, body):
+    """re-run a bounded stand-in; the violation is reproduced iff it fails again"""
+    import bounded
+    res = getattr(bounded, inp["what"])(inp)
+    return {"reproduced": not res["ok"], "observed": res.get("witness")}
